@@ -85,6 +85,13 @@ func execC10(t *testing.T, p Plan, src kernel.Source) Result {
 		by := w.Connect(p.Conns[1].Port)
 		w.Settle()
 		conns := []*kernel.ClientConn{victim, by}
+		// the set-up writes always go through the main port (the batch port never fills L1,
+		// and a batch-port victim is interesting exactly when its keys are hot in L1)
+		var setup *kernel.ClientConn
+		if p.Conns[0].Port != "main" {
+			setup = w.Connect("main")
+			w.Settle()
+		}
 		ref := model.NewStore(w.Now)     // exact model for the bystander's keys and the set-up
 		poss := map[string]kset{}        // victim keys
 		lastAcked := map[string]string{} // per key: kind of the last acknowledged write of the victim program
@@ -137,6 +144,9 @@ func execC10(t *testing.T, p Plan, src kernel.Source) Result {
 				w.Disarm()
 			}
 			cc := conns[st.Conn]
+			if setup != nil && st.Conn == 0 && i < armAt {
+				cc = setup
+			}
 			proto := p.Conns[st.Conn].Proto
 			op := *st.Op
 			isVictim := st.Conn == 0 && i >= armAt && i < victimDone
@@ -388,15 +398,19 @@ func c10Faults(tier string, idx int) []kernel.Fault {
 	return fs
 }
 
-func c10Base(id uint64, cfg stack.Cfg, proto string, victimOps []wire.Op) Plan {
-	p := Plan{Prop: "C10", Seed: id, Cfg: cfg, Conns: []ConnSpec{{Port: "main", Proto: proto}, {Port: "main", Proto: "text"}}}
+// the set-up steps are the same in every C10 plan; the ops are shared (read-only)
+var c10Pre = func() []Step {
 	big := bytes.Repeat([]byte("0123456789"), 230) // 2300 bytes: three chunks when L1 is chunked
-	pre := []Step{
+	return []Step{
 		{Conn: 0, Op: &wire.Op{Kind: "set", Key: "a", Data: append([]byte("old-a:"), big[:40]...), Flags: 1, Opaque: 11}},
 		{Conn: 0, Op: &wire.Op{Kind: "set", Key: "bb", Data: append([]byte("old-bb:"), big...), Flags: 2, Opaque: 12}},
 		{Conn: 1, Op: &wire.Op{Kind: "set", Key: "by", Data: []byte("bystander-1"), Flags: 3}},
 	}
-	p.Steps = append(p.Steps, pre...)
+}()
+
+func c10Base(id uint64, cfg stack.Cfg, proto string, victimOps []wire.Op) Plan {
+	p := Plan{Prop: "C10", Seed: id, Cfg: cfg, Conns: []ConnSpec{{Port: "main", Proto: proto}, {Port: "main", Proto: "text"}}}
+	p.Steps = append(p.Steps, c10Pre...)
 	p.X = map[string]int64{"arm_at": int64(len(p.Steps))}
 	for i := range victimOps {
 		p.Steps = append(p.Steps, Step{Conn: 0, Op: &victimOps[i]})
@@ -472,7 +486,10 @@ func c10Cfgs() []stack.Cfg {
 }
 
 func enumC10(tier string) []Plan {
-	var out []Plan
+	out := make([]Plan, 0, 40000)
+	if tier == "thorough" {
+		out = make([]Plan, 0, 160000)
+	}
 	n := uint64(0)
 	for ci, cfg := range c10Cfgs() {
 		for _, proto := range []string{"text", "bin"} {
@@ -490,13 +507,19 @@ func enumC10(tier string) []Plan {
 						for fi, f := range c10Faults(tr, idx) {
 							n++
 							if tier != "thorough" {
-								// quick: a rotating sixth of the (program, fault) grid
-								if (int(n)+ci+pi+fi)%6 != 0 {
+								// quick: every refusal status at every position (rend treats some
+								// statuses specially, and which ones is exactly what may change), and a
+								// rotating sixth of the connection faults
+								if f.Kind != "status" && (int(n)+ci+pi+fi)%6 != 0 {
+									continue
+								}
+								if f.Kind == "status" && (pi+idx+ci)%2 != 0 && (int(n)+ci+pi+fi)%6 != 0 {
 									continue
 								}
 							}
 							p := c10Base(0xC10000+n, cfg, proto, append([]wire.Op{}, prog...))
-							if cfg.Shape == "l1l2batch" && n%2 == 0 {
+							if cfg.Shape == "l1l2batch" && (pi+idx+fi)%2 == 0 {
+								// the victim on the batch port (independently of the fault's parity)
 								p.Conns[0].Port = "batch"
 							}
 							p.Faults = []kernel.Fault{f}
@@ -544,6 +567,17 @@ func genC10(seed uint64, tier string) Plan {
 			prog[i].Opaque = uint32(500 + 10*i)
 		}
 	}
+	if g.p(1, 16) {
+		// a value the backend itself refuses as too large (more than 1 MiB): the refusal is
+		// truthful, nothing is stored, and the connection must stay usable
+		huge := bytes.Repeat([]byte("H"), 1<<20+1+g.n(2000))
+		prog = []wire.Op{{Kind: pick(g, []string{"set", "set", "add", "replace", "append"}), Key: pick(g, []string{"a", "zz"}), Data: huge, Flags: 5, Opaque: 600},
+			{Kind: "get", Keys: []string{"a"}, Quiets: []bool{false}, Opaque: 610},
+			{Kind: "set", Key: "a", Data: []byte("new-after-huge"), Flags: 6, Opaque: 620}}
+		if cfg.L1 == "chunked" {
+			cfg.L1 = "std" // a megabyte through the chunking handler is a thousand backend requests
+		}
+	}
 	p := c10Base(seed, cfg, proto, prog)
 	if cfg.Shape == "l1l2batch" && g.p(1, 2) {
 		p.Conns[0].Port = "batch"
@@ -565,7 +599,7 @@ func init() {
 	register(&Prop{
 		ID: "C10", Gen: genC10, Exec: execC10, Enumerate: enumC10, Level: "fault_enumeration",
 		Nontrivial: func(p Plan, r Result) bool { return !r.Trivial },
-		Rule:       "one backend fault per run, addressed by (tier, index of the backend request counted from the start of the victim's program, kind): each of the 8 memcached error statuses that are refusals rather than statements about the key (E2BIG, EINVAL, UNKNOWN_COMMAND, ENOMEM, NOT_SUPPORTED, INTERNAL, BUSY, TMPFAIL; NOT_FOUND / EXISTS / NOT_STORED occur only truthfully) with its text body, connection closed before the request is applied / after it is applied but before the reply / after n reply bytes (n in {1, 23, 24, 26, 28, 30, 60}) / after the reply, each with EPIPE or silent write mode (36 faults per position). Enumerated part: 22 text / 27 binary victim programs (every command kind on present and absent keys, 3-chunk values, multi-key and quiet gets, 1-3 commands) x 6 deployments (L1-only / L1L2 / batch port x direct or chunked L1) x tier x request index 0..3 (0..9 on a chunked tier) x the 36 faults (thorough: all; quick: a rotating sixth); positions that the program never reaches count as trivial; a third of the two-tier cases (thorough: all) are repeated with the victim's keys evicted from L1 beforehand, half of those under the locking wrapper, so that reads back-fill L1 under the fault. Seeded part: drawn combinations, also under the locking wrapper, with evicted keys and with segmentation. Oracle: victim gets a complete well-formed reply or its connection is closed (never quiescent with a request outstanding; a spinning goroutine is caught by the worker watchdog), an aborted connection has all its backend sockets closed, the bystander connection's replies equal the reference map's, and afterwards fresh connections read for every key only values allowed by a model in which unacknowledged writes may or may not have happened - never the value from before an acknowledged write or delete - and can then overwrite every key (set / get answered STORED and the new value: nothing the faulted command held is still held). Non-trivial = the fault fired; distinct = distinct plan hash",
+		Rule:       "one backend fault per run, addressed by (tier, index of the backend request counted from the start of the victim's program, kind): each of the 8 memcached error statuses that are refusals rather than statements about the key (E2BIG, EINVAL, UNKNOWN_COMMAND, ENOMEM, NOT_SUPPORTED, INTERNAL, BUSY, TMPFAIL; NOT_FOUND / EXISTS / NOT_STORED occur only truthfully) with its text body, connection closed before the request is applied / after it is applied but before the reply / after n reply bytes (n in {1, 23, 24, 26, 28, 30, 60}) / after the reply, each with EPIPE or silent write mode (36 faults per position). Enumerated part: 22 text / 27 binary victim programs (every command kind on present and absent keys, 3-chunk values, multi-key and quiet gets, 1-3 commands) x 6 deployments (L1-only / L1L2 / batch port x direct or chunked L1) x tier x request index 0..3 (0..9 on a chunked tier) x the 36 faults (thorough: all; quick: all 8 refusal statuses at every second position, a rotating sixth of them elsewhere, and a rotating sixth of the 28 connection faults; with the batch port the victim alternates between the ports); positions that the program never reaches count as trivial; a third of the two-tier cases (thorough: all) are repeated with the victim's keys evicted from L1 beforehand, half of those under the locking wrapper, so that reads back-fill L1 under the fault. Seeded part: drawn combinations, also under the locking wrapper, with evicted keys and with segmentation; one run in sixteen has the victim write a value of more than 1 MiB, which the simulated memcached truthfully refuses (too large), followed by a get and a set on the same connection. Oracle: victim gets a complete well-formed reply or its connection is closed (never quiescent with a request outstanding; a spinning goroutine is caught by the worker watchdog), an aborted connection has all its backend sockets closed, the bystander connection's replies equal the reference map's, and afterwards fresh connections read for every key only values allowed by a model in which unacknowledged writes may or may not have happened - never the value from before an acknowledged write or delete - and can then overwrite every key (set / get answered STORED and the new value: nothing the faulted command held is still held). Non-trivial = the fault fired; distinct = distinct plan hash",
 		Real:       append(append([]string{}, realFullStack...), "handlers/memcached/chunked", "server/utils.go abort"),
 		Stub:       stubFullStack,
 		FaultKinds: []string{"status", "close_before", "close_applied", "close_mid", "close_after"},
